@@ -4,6 +4,18 @@ NOT_APPLICABLE = {}
 BASE_NOTE = ("Trusted: Lean 4.33 kernel (axioms at most propext, Classical.choice, Quot.sound; audited per theorem on every run), "
              "the go/ast fact extractor and its expectations, the seeded correspondence harness (coverage reported in evidence). ")
 TEXT = {
+    "C13": dict(
+        text="Theorems stage_monotone, succeeded_sticks, size_monotone_while_running, cancel_write_after_exit over a step model of a "
+             "command unit's record rewritten by daemon and runner (any scheduler), by an inductive invariant; "
+             "C13_witness_succeeded_overwritten (the repaired defect); ids_distinct (any candidate streams, any number of submissions), "
+             "released_is_unknown, unforced_release_all_or_nothing. Tie: regenerated facts (Cancel's steps and guarded final write, the "
+             "runner's writes, Start's order, AllocateUnit under the index write lock, the Release loop) + runs of real command units "
+             "with the real detached runner process driven through the real `work` commands by concurrent clients: every status "
+             "rewrite of daemon and runner is logged (instrumented copy of workunitbase.go injected by overlay), `work status` is polled "
+             "every 5 ms; scenarios: success, failure, cancel while running, a cancel placed between the command's exit and the final "
+             "write (runner held at the status lock), in-process units, bursts of concurrent submissions, a unit directory that cannot "
+             "be removed; operations on finished / cancelled / released units.",
+        note=BASE_NOTE + "Remote and Kubernetes units are not exercised; each rewrite is taken as atomic (C14)."),
     "C05": dict(
         text="Theorems sent_is_exact_slice (what has been sent is exactly output[start..pos], for every interleaving of the unit's "
              "writes, status rewrites and the reader's reads/checks and every start offset), never_ends_early, ends_once_finished "
